@@ -1206,3 +1206,44 @@ def rule_p9(repo, res):
                                 "copy.deepcopy and pickle of a label that contains one raise IndexError",
                                 where=f"pvl/collections.py:{sub.lineno}"))
     res.oblige("P9", f"{CONTAINER}.__init__ / extend accept the empty list of pairs ({n} element accesses examined)", ok=True, nontrivial=False)
+
+
+def rule_p10(repo, res):
+    """P10: a copy hook does not carry the original's instance dictionary over wholesale: `vars(new).update(vars(self))`,
+    `new.__dict__.update(self.__dict__)`, `new.__dict__ = self.__dict__` (or a shallow copy of it) also carry the private
+    item list -- the very object -- so the copy and the original share their list of pairs while each has its own dict
+    storage; a later append to one shows in the list view of the other.  (The reduction filters the item list out by its
+    *mangled* name; a filter on the unmangled name keeps it.)"""
+    items = item_attr(repo)
+    mangled = f"_{CONTAINER}{items}" if items.startswith("__") else items
+    n = 0
+    for cname, cnode in repo.module("collections").classes.items():
+        if cname not in repo.classes:
+            continue
+        mro = repo.mro(cname)
+        if not any(b in mro for b in (CONTAINER, "MutableMappingSequence")) and cname != CONTAINER:
+            continue
+        for fn in [x for x in cnode.body if isinstance(x, ast.FunctionDef)
+                   and x.name in ("__copy__", "__deepcopy__", "copy", "__reduce__", "__reduce_ex__", "__getstate__")]:
+            n += 1
+            bad = None
+            for x in ast.walk(fn):
+                if isinstance(x, ast.Call) and isinstance(x.func, ast.Attribute) and x.func.attr == "update" and x.args:
+                    tgt, src = norm(x.func.value), norm(x.args[0])
+                    if (tgt.startswith("vars(") or tgt.endswith(".__dict__")) and (src in ("vars(self)", "self.__dict__")):
+                        bad = x
+                if isinstance(x, ast.Assign) and any(isinstance(t, ast.Attribute) and t.attr == "__dict__" for t in x.targets) \
+                        and ("self.__dict__" in norm(x.value) or "vars(self)" in norm(x.value)):
+                    bad = x
+                # a state filter that compares with the unmangled private name never matches
+                if isinstance(x, ast.Compare) and any(isinstance(c_, ast.Constant) and c_.value == items and items != mangled
+                                                      for c_ in [x.left] + x.comparators):
+                    bad = x
+            res.oblige("P10", f"{cname}.{fn.name} does not hand the original's instance dictionary (with the item list) to the copy", ok=bad is None)
+            if bad is not None:
+                res.add(Finding("P10", f"{cname}.{fn.name}", f"`{norm(bad, 60)}`",
+                                f"{cname}.{fn.name} uses `{norm(bad, 70)}`: the private item list `{mangled}` travels with the instance "
+                                "dictionary (or is not filtered out, the filter names it without its class prefix), so the copy's list of "
+                                "pairs *is* the original's: after copy.copy, an append / insert / assignment on one container shows in "
+                                "the sequence view of the other while their mapping views differ", where=f"pvl/collections.py:{bad.lineno}"))
+    res.floor("copy / reduction hooks examined for P10", n, 2)
